@@ -57,6 +57,9 @@ type DTLSR struct {
 	purgeTime time.Duration
 	// dataMutex is a RW-mutex which protects change operations to the algorithm's metadata
 	dataMutex sync.RWMutex
+	// failureMutex serializes ReportFailure, which reads, modifies and writes back a bundle's store item and is
+	// called concurrently for each failed transmission of a bundle.
+	failureMutex sync.Mutex
 }
 
 func NewDTLSR(c *Core, config DTLSRConfig) *DTLSR {
@@ -216,6 +219,9 @@ func (dtlsr *DTLSR) NotifyNewBundle(bp BundleDescriptor) {
 }
 
 func (dtlsr *DTLSR) ReportFailure(bp BundleDescriptor, sender cla.ConvergenceSender) {
+	dtlsr.failureMutex.Lock()
+	defer dtlsr.failureMutex.Unlock()
+
 	// Broadcast bundles are marked as sent to a peer when the peer is selected. After a failed transmission the
 	// peer needs to be eligible again, otherwise it never receives this bundle.
 	bundleItem, err := dtlsr.c.store.QueryId(bp.Id)
